@@ -49,6 +49,16 @@ def handle (op : String) (j : Json) : Except String Json := do
     pure (Json.mkObj [("attempts", Json.num (JsonNumber.fromNat r.attempts)),
       ("waits", Json.arr (r.waits.toArray.map (fun w => Json.num (JsonNumber.fromInt w)))),
       ("result", Json.str (resultStr r.result))])
+  | "e2e" =>
+    -- attempts and result class only (the waits are 1 ms and not observed end-to-end)
+    let cfg ← match getOpt j "cfg" with
+      | none => pure none
+      | some cj => do pure (some (← cfgOfJson cj))
+    let script ← (← getArr j "script").toList.mapM (fun (x : Json) => match x with
+      | .null => pure (none : Option Text)
+      | v => do pure (some (← textOfJson v)))
+    let r := execute (isRetryable Mcp.Gen.retryLimits.codes) Mcp.Gen.retryOverflowZero cfg (scriptOf script) none
+    pure (Json.mkObj [("attempts", Json.num (JsonNumber.fromNat r.attempts)), ("result", Json.str (resultStr r.result))])
   | _ => throw s!"retry: unknown op {op}"
 
 end Mcp.Drv.Retry
